@@ -27,7 +27,11 @@ static void sv(u8 kind, u32 rule, u64 a, u64 b) {
 void x_verif_event(u32 kind, u32 rule, u64 a, u64 b) { ev_push_real((u8)kind, rule, a, b); }
 static int sp_veto(u32 rule, u64 begin, u64 end) { (void)end; return T_veto[ev_slot(rule)][begin <= SP_N ? begin : 0]; }
 u32 x_verif_veto(u32 rule, u64 begin, u64 end) { return (u32)sp_veto(rule, begin, end); }
+#ifdef SP_LEAFSYM   /* sub-rules with the simple interface do not know the apply mode: logged as 7 on both sides */
+static out_t sp_sym_logged(int k, u64 p, int a) { (void)a; sv(11, (u32)k, p, 7); return sp_sym(k, p); }
+#else
 static out_t sp_sym_logged(int k, u64 p, int a) { sv(11, (u32)k, p, (u64)a); return sp_sym(k, p); }
+#endif
 
 static void ev_setup(void) {
   ev_nreal = 0; ev_nspec = 0;
